@@ -1,8 +1,6 @@
 /-
   Progress of the closed loop, round-boundary classes 1, 2, 4, 30 and the terminal class 40: one fair round from a state of the
   class leads to a state of the invariant with a strictly smaller measure (`round_cls_X`), and keeps `doneInv` (`done_cls_X`).
-  `round_cls_30` and `round_cls_40` are false as stated (witnesses at the end of the file): `round_cls_30_partial` needs a
-  sub-status to exist; `round_cls_40_partial` says that the round after the next one changes nothing.
 -/
 import RV.Lemmas.ClosedLoopLiveBase
 namespace RV.Lemmas.ClosedLoop
@@ -240,7 +238,8 @@ theorem lG1_cls_phase (s : CS) (k : Nat) (hc : cls s = k) (hk : k = 1 ∨ k = 2 
 
 theorem lG1_cls_healthy (s : CS) (w : CWl) (hw : s.wl = some w) (hph : s.ro.phase = .healthy) :
     cls s = if w.inProgressAnno then (if w.generation = w.observedGeneration then 2 else 1)
-      else if s.br.isNone && (match s.ro.sub with | some sub => sub.state != .paused | none => false) then 40 else 0 := by
+      else if s.br.isNone && (match s.ro.sub with | some sub => sub.state != .paused | none => false) &&
+              csObserve s.ro (roWl w) == s.ro then 40 else 0 := by
   unfold cls; rw [hw]; dsimp only; rw [hph]; rfl
 
 theorem lG1_cls_init (s : CS) (w : CWl) (hw : s.wl = some w) (hph : s.ro.phase = .progressing) (hr : s.ro.reason = .initializing) :
@@ -248,7 +247,7 @@ theorem lG1_cls_init (s : CS) (w : CWl) (hw : s.wl = some w) (hph : s.ro.phase =
   unfold cls; rw [hw]; dsimp only; rw [hph, hr]
 
 theorem lG1_cls_completed (s : CS) (w : CWl) (hw : s.wl = some w) (hph : s.ro.phase = .progressing) (hr : s.ro.reason = .completed) :
-    cls s = if s.br.isNone then 30 else 0 := by
+    cls s = if s.br.isNone && s.ro.sub.isSome then 30 else 0 := by
   unfold cls; rw [hw]; dsimp only; rw [hph, hr]
 
 theorem lG1_cls_roll_init (s : CS) (w : CWl) (sub : Sub) (hw : s.wl = some w) (hph : s.ro.phase = .progressing)
@@ -469,13 +468,19 @@ theorem lG1_cls_4 (s : CS) (hc : cls s = 4) :
   · rw [lG1_cls_completed s w hw hp hr] at hc; split at hc <;> omega
 
 theorem lG1_cls_30 (s : CS) (hc : cls s = 30) :
-    ∃ w, s.wl = some w ∧ s.ro.phase = .progressing ∧ s.ro.reason = .completed := by
+    ∃ w, s.wl = some w ∧ s.ro.phase = .progressing ∧ s.ro.reason = .completed ∧ s.ro.sub.isSome = true := by
   obtain ⟨w, hw, hp⟩ := lG1_cls_phase s 30 hc (by omega)
   refine ⟨w, hw, ?_⟩
   rcases hp with hp | ⟨hp, hr | hr⟩
   · rw [lG1_cls_healthy s w hw hp] at hc; (repeat' split at hc) <;> omega
   · rw [lG1_cls_init s w hw hp hr] at hc; split at hc <;> omega
-  · exact ⟨hp, hr⟩
+  · refine ⟨hp, hr, ?_⟩
+    rw [lG1_cls_completed s w hw hp hr] at hc
+    split at hc
+    · rename_i hcond
+      simp only [Bool.and_eq_true] at hcond
+      exact hcond.2
+    · omega
 
 theorem lG1_cfg_tr (s : CS) (h : liveCfg s = true) : s.ro.hasTraffic = false := by
   unfold liveCfg at h
@@ -575,8 +580,9 @@ theorem done_cls_4 (s : CS) (h : liveInv s = true) (_hd : doneInv s = true) (hc 
 
 /-- a state of the terminal class, from its parts -/
 theorem lG1_cls40_of (s : CS) (w : CWl) (sub : Sub) (hw : s.wl = some w) (hph : s.ro.phase = .healthy)
-    (ha : w.inProgressAnno = false) (hbr : s.br = none) (hs : s.ro.sub = some sub) (hst : sub.state ≠ .paused) : cls s = 40 := by
-  rw [lG1_cls_healthy s w hw hph, ha, hbr, hs]
+    (ha : w.inProgressAnno = false) (hbr : s.br = none) (hs : s.ro.sub = some sub) (hst : sub.state ≠ .paused)
+    (hobs : csObserve s.ro (roWl w) = s.ro) : cls s = 40 := by
+  rw [lG1_cls_healthy s w hw hph, ha, hbr, hobs, hs]
   simp [hst]
 
 theorem lG1_mu0_of (s : CS) (w : CWl) (hw : s.wl = some w) (hph : s.ro.phase = .healthy) (ha : w.inProgressAnno = false) :
@@ -589,17 +595,28 @@ theorem lG1_g_state (sub : Sub) : (if sub.state = .paused then StepState.ready e
   · decide
   · assumption
 
-/-
-  FALSE as stated (class 30 does not say that a sub-status exists; without one the reconcile goes to Healthy with no
-  sub-status, which is none of the listed classes — witness `c30` in the report):
+/-- the status calculation's refresh of the observed rollout-id / generation is a fixpoint after one application: the round
+    tail (approval, clock) does not touch what it reads or writes -/
+theorem lG1_obs_ta_fix (ro R : Rollout) (wl : WL) (sub0 : Sub) (hs0 : ro.sub = some sub0)
+    (hR : R.sub = (csObserve ro wl).sub) : csObserve (lG1_tk (lG1_ap R)) wl = lG1_tk (lG1_ap R) := by
+  have hs' := lG1_ta_sub R
+  rw [hR, lG1_obs_sub ro wl sub0 hs0] at hs'
+  refine lG1_obs_fix _ _ _ hs' ?_
+  intro hcond
+  by_cases hc0 : sub0.canaryRev ≠ "" ∧ sub0.canaryRev = wl.canaryRev
+  · rw [if_pos hc0]
+    exact ⟨rfl, rfl⟩
+  · rw [if_neg hc0] at hcond
+    exact absurd hcond hc0
 
-  theorem round_cls_30 (s : CS) (h : liveInv s = true) (hc : cls s = 30) :
-      ∃ s', round s = some s' ∧ liveInv s' = true ∧ mu s' < mu s
--/
-theorem round_cls_30_partial (s : CS) (h : liveInv s = true) (hc : cls s = 30) (hsub : s.ro.sub.isSome = true) :
-    ∃ s', round s = some s' ∧ liveInv s' = true ∧ mu s' < mu s := by
+/-- the round from class 30, explicitly -/
+theorem lG1_round30 (s : CS) (h : liveInv s = true) (hc : cls s = 30) :
+    ∃ w, s.wl = some w ∧ mu s = 1 ∧
+      round s = some (lG1_next s { csObserve s.ro (roWl w) with phase := .healthy } w) ∧
+      liveInv (lG1_next s { csObserve s.ro (roWl w) with phase := .healthy } w) = true ∧
+      mu (lG1_next s { csObserve s.ro (roWl w) with phase := .healthy } w) = 0 := by
   obtain ⟨hf, hcfg, _, hb⟩ := (liveInv_iff s).1 h
-  obtain ⟨w, hw, hph, hr⟩ := lG1_cls_30 s hc
+  obtain ⟨w, hw, hph, hr, hsub⟩ := lG1_cls_30 s hc
   have hb : atBoundary s = true := by
     rcases hb with hb | hb
     · omega
@@ -609,36 +626,45 @@ theorem round_cls_30_partial (s : CS) (h : liveInv s = true) (hc : cls s = 30) (
   rw [phaseInv_completed s w hph hr] at hpi
   simp only [Bool.and_eq_true, Option.isNone_iff_eq_none, Bool.not_eq_true'] at hpi
   obtain ⟨hbr, hanno⟩ := hpi
-  have hcons := lG1_cons w (lG1_boundary s w hw hb).1
+  have henv := (lG1_boundary s w hw hb).1
+  have hcons := lG1_cons w henv
   have hrec := reconcile_completed (roWorld s) (roWl w) hg (world_wl s w hw) hcons hph hr
   have hro : stepRo s = some { s with gone := false, ro := { csObserve s.ro (roWl w) with phase := .healthy } } :=
     lG1_stepRo_status s _ hgone hrec rfl rfl rfl rfl rfl
+  refine ⟨w, hw, lG1_mu_completed s w hw hph hr, ?_⟩
   obtain ⟨R, hR⟩ : ∃ R : Rollout, R = { csObserve s.ro (roWl w) with phase := .healthy } := ⟨_, rfl⟩
-  rw [← hR] at hro
+  rw [← hR] at hro ⊢
   obtain ⟨hround, hfwd⟩ := lG1_round_of s w R hf hw hbr hro
   have hsame := (csObserve_same s.ro (roWl w)).1
   have hst : R.steps = s.ro.steps := by rw [hR]; exact hsame.1
   have htr : R.hasTraffic = s.ro.hasTraffic := by rw [hR]; exact hsame.2.1
   have hRph : R.phase = .healthy := by rw [hR]
+  have hRsub : R.sub = (csObserve s.ro (roWl w)).sub := by rw [hR]
   obtain ⟨sub0, hs0⟩ := Option.isSome_iff_exists.1 hsub
   obtain ⟨id, gen, hos⟩ := csObserve_sub s.ro (roWl w) sub0 hs0
-  have hRs : R.sub = some { sub0 with observedRolloutID := id, observedGen := gen } := by rw [hR]; exact hos
+  have hRs : R.sub = some { sub0 with observedRolloutID := id, observedGen := gen } := hRsub.trans hos
   obtain ⟨t1, t2, t3, t4, t5⟩ := lG1_ta_frame R
   have hph' : (lG1_next s R w).ro.phase = .healthy := t1.trans hRph
   have hs' := lG1_ta_sub R
   rw [hRs] at hs'
   have hanno' : (envWl w).inProgressAnno = false := (envWl_frame w).2.2.2.2.trans hanno
-  have hcls : cls (lG1_next s R w) = 40 := lG1_cls40_of _ (envWl w) _ rfl hph' hanno' rfl hs' (lG1_g_state _)
-  refine ⟨_, hround, (liveInv_iff _).2 ⟨hfwd, lG1_next_cfg s R w hw hcfg hst htr, by rw [hcls]; decide,
-    Or.inr (lG1_next_boundary s R w hwok)⟩, ?_⟩
-  rw [lG1_mu0_of _ (envWl w) rfl hph' hanno', lG1_mu_completed s w hw hph hr]
-  decide
+  have hobs' : csObserve (lG1_next s R w).ro (roWl (envWl w)) = (lG1_next s R w).ro := by
+    rw [henv]
+    exact lG1_obs_ta_fix s.ro R (roWl w) sub0 hs0 hRsub
+  have hcls : cls (lG1_next s R w) = 40 := lG1_cls40_of _ (envWl w) _ rfl hph' hanno' rfl hs' (lG1_g_state _) hobs'
+  exact ⟨hround, (liveInv_iff _).2 ⟨hfwd, lG1_next_cfg s R w hw hcfg hst htr, by rw [hcls]; decide,
+    Or.inr (lG1_next_boundary s R w hwok)⟩, lG1_mu0_of _ (envWl w) rfl hph' hanno'⟩
+
+theorem round_cls_30 (s : CS) (h : liveInv s = true) (hc : cls s = 30) :
+    ∃ s', round s = some s' ∧ liveInv s' = true ∧ mu s' < mu s := by
+  obtain ⟨w, _, hmu, hround, hlive, hmu'⟩ := lG1_round30 s h hc
+  exact ⟨_, hround, hlive, by rw [hmu', hmu]; decide⟩
 
 /-! ### the terminal class -/
 
 theorem lG1_cls_40 (s : CS) (hc : cls s = 40) :
     ∃ w sub, s.wl = some w ∧ s.ro.phase = .healthy ∧ w.inProgressAnno = false ∧ s.br = none ∧ s.ro.sub = some sub ∧
-      sub.state ≠ .paused := by
+      sub.state ≠ .paused ∧ csObserve s.ro (roWl w) = s.ro := by
   obtain ⟨w, hw, hph⟩ := lG1_cls_h s 40 hc (by omega)
   rw [lG1_cls_healthy s w hw hph] at hc
   cases ha : w.inProgressAnno
@@ -651,8 +677,8 @@ theorem lG1_cls_40 (s : CS) (hc : cls s = 40) :
       dsimp only at hc
       split at hc
       · rename_i hcond
-        simp only [Bool.and_eq_true, Option.isNone_iff_eq_none, bne_iff_ne, ne_eq] at hcond
-        exact ⟨w, sub, hw, hph, ha, hcond.1, rfl, hcond.2⟩
+        simp only [Bool.and_eq_true, Option.isNone_iff_eq_none, bne_iff_ne, ne_eq, beq_iff_eq] at hcond
+        exact ⟨w, sub, hw, hph, ha, hcond.1.1, rfl, hcond.1.2, hcond.2⟩
       · omega
   · rw [ha] at hc
     simp only [if_true] at hc
@@ -672,14 +698,11 @@ theorem lG1_next_fix (s : CS) (w : CWl) (sub : Sub) (hgone : s.gone = false) (hb
   subst hgone hbr hw
   rfl
 
-/-- one round from the terminal class: only the observed rollout-id / generation of the sub-status may be refreshed -/
-theorem lG1_round40 (s : CS) (h : liveInv s = true) (hc : cls s = 40) :
-    ∃ w, s.wl = some w ∧ envWl w = w ∧ round s = some (lG1_next s (csObserve s.ro (roWl w)) w) ∧
-      liveInv (lG1_next s (csObserve s.ro (roWl w)) w) = true ∧ cls (lG1_next s (csObserve s.ro (roWl w)) w) = 40 ∧
-      mu (lG1_next s (csObserve s.ro (roWl w)) w) = 0 ∧ mu s = 0 ∧
-      (csObserve s.ro (roWl w) = s.ro → lG1_next s (csObserve s.ro (roWl w)) w = s) := by
+/-- **no oscillation** — in the terminal class (Healthy, nothing in progress, no BatchRelease, at a round boundary) a further
+    round changes nothing -/
+theorem round_cls_40 (s : CS) (h : liveInv s = true) (hc : cls s = 40) : round s = some s ∧ mu s = 0 := by
   obtain ⟨hf, hcfg, _, hb⟩ := (liveInv_iff s).1 h
-  obtain ⟨w, sub0, hw, hph, hanno, hbr, hs0, hst0⟩ := lG1_cls_40 s hc
+  obtain ⟨w, sub0, hw, hph, hanno, hbr, hs0, hst0, hobs⟩ := lG1_cls_40 s hc
   have hb : atBoundary s = true := by
     rcases hb with hb | hb
     · omega
@@ -689,77 +712,12 @@ theorem lG1_round40 (s : CS) (h : liveInv s = true) (hc : cls s = 40) :
   rw [hw] at hw'; cases hw'
   have hcons := lG1_cons w henv
   have hrec := reconcile_healthy (roWorld s) (roWl w) hg (world_wl s w hw) hcons hph
-  have hoph : (csObserve s.ro (roWl w)).phase = .healthy := (csObserve_same s.ro (roWl w)).2.2.trans hph
-  obtain ⟨id, gen, hos⟩ := csObserve_sub s.ro (roWl w) sub0 hs0
-  have hidle := lG1_csPhase_idle s.ro (csObserve s.ro (roWl w)) (roWl w) hoph hanno (by rw [hos]; rfl)
   have hro : stepRo s = some { s with gone := false, ro := csPhase s.ro (csObserve s.ro (roWl w)) (roWl w) } :=
     lG1_stepRo_status s _ hgone hrec rfl rfl rfl rfl rfl
-  rw [hidle] at hro
-  refine ⟨w, hw, henv, ?_⟩
-  obtain ⟨R, hR⟩ : ∃ R : Rollout, R = csObserve s.ro (roWl w) := ⟨_, rfl⟩
-  rw [← hR] at hro hoph hos ⊢
-  obtain ⟨hround, hfwd⟩ := lG1_round_of s w R hf hw hbr hro
-  have hsame := (csObserve_same s.ro (roWl w)).1
-  have hst : R.steps = s.ro.steps := by rw [hR]; exact hsame.1
-  have htr : R.hasTraffic = s.ro.hasTraffic := by rw [hR]; exact hsame.2.1
-  obtain ⟨t1, t2, t3, t4, t5⟩ := lG1_ta_frame R
-  have hph' : (lG1_next s R w).ro.phase = .healthy := t1.trans hoph
-  have hs' := lG1_ta_sub R
-  rw [hos] at hs'
-  have hanno' : (envWl w).inProgressAnno = false := (envWl_frame w).2.2.2.2.trans hanno
-  have hcls : cls (lG1_next s R w) = 40 := lG1_cls40_of _ (envWl w) _ rfl hph' hanno' rfl hs' (lG1_g_state _)
-  refine ⟨hround, (liveInv_iff _).2 ⟨hfwd, lG1_next_cfg s R w hw hcfg hst htr, by rw [hcls]; decide,
-    Or.inr (lG1_next_boundary s R w hwok)⟩, hcls, lG1_mu0_of _ (envWl w) rfl hph' hanno', lG1_mu0_of s w hw hph hanno, ?_⟩
-  intro hfix
-  rw [hfix]
-  exact lG1_next_fix s w sub0 hgone hbr hw henv htick hs0 hst0
-
-/-- in the terminal class the measure is 0 -/
-theorem lG1_mu_cls_40 (s : CS) (h : liveInv s = true) (hc : cls s = 40) : mu s = 0 := by
-  obtain ⟨w, _, _, _, _, _, _, hmu, _⟩ := lG1_round40 s h hc
-  exact hmu
-
-/-- in the terminal class a round changes nothing once the sub-status carries the workload's rollout-id / generation -/
-theorem lG1_round_cls_40_observed (s : CS) (w : CWl) (h : liveInv s = true) (hc : cls s = 40) (hw : s.wl = some w)
-    (hobs : csObserve s.ro (roWl w) = s.ro) : round s = some s ∧ mu s = 0 := by
-  obtain ⟨w', hw', _, hround, _, _, _, hmu, hfix⟩ := lG1_round40 s h hc
-  rw [hw] at hw'; cases hw'
-  rw [hfix hobs] at hround
-  exact ⟨hround, hmu⟩
-
-/-
-  FALSE as stated (the Healthy status calculation refreshes `observedRolloutID` / `observedGen` of the sub-status when the
-  sub-status' canary revision is the workload's update revision; nothing in class 40 says they are up to date — witness
-  `c40` in the report):
-
-  theorem round_cls_40 (s : CS) (h : liveInv s = true) (hc : cls s = 40) : round s = some s ∧ mu s = 0
--/
-/-- **no oscillation** — from the terminal class one round leads to a state of the terminal class that a further round
-    does not change -/
-theorem round_cls_40_partial (s : CS) (h : liveInv s = true) (hc : cls s = 40) :
-    ∃ s', round s = some s' ∧ liveInv s' = true ∧ cls s' = 40 ∧ mu s' = 0 ∧ round s' = some s' := by
-  obtain ⟨w, hw, henv, hround, hlive, hcls, hmu, _, _⟩ := lG1_round40 s h hc
-  obtain ⟨_, sub0, _, _, _, _, hs0, _⟩ := lG1_cls_40 s hc
-  refine ⟨_, hround, hlive, hcls, hmu, ?_⟩
-  obtain ⟨w2, hw2, _, hround2, _, _, _, _, hfix⟩ := lG1_round40 _ hlive hcls
-  have e2 : w2 = w := by
-    have : some (envWl w) = some w2 := hw2
-    rw [henv] at this
-    cases this; rfl
-  subst e2
-  rw [hfix ?_] at hround2
-  · exact hround2
-  · obtain ⟨R, hR⟩ : ∃ R : Rollout, R = csObserve s.ro (roWl w2) := ⟨_, rfl⟩
-    rw [← hR]
-    have hs' := lG1_ta_sub R
-    rw [hR, lG1_obs_sub s.ro (roWl w2) sub0 hs0, ← hR] at hs'
-    refine lG1_obs_fix _ _ _ hs' ?_
-    intro hcond
-    by_cases hc0 : sub0.canaryRev ≠ "" ∧ sub0.canaryRev = (roWl w2).canaryRev
-    · rw [if_pos hc0]
-      exact ⟨rfl, rfl⟩
-    · rw [if_neg hc0] at hcond
-      exact absurd hcond hc0
+  rw [hobs, lG1_csPhase_idle s.ro s.ro (roWl w) hph hanno (by rw [hs0]; rfl)] at hro
+  obtain ⟨hround, _⟩ := lG1_round_of s w s.ro hf hw hbr hro
+  rw [lG1_next_fix s w sub0 hgone hbr hw henv htick hs0 hst0] at hround
+  exact ⟨hround, lG1_mu0_of s w hw hph hanno⟩
 
 /-! ### the terminal facts survive the last two classes -/
 
@@ -795,72 +753,17 @@ theorem lG1_next_done (s : CS) (ro' : Rollout) (w : CWl) (hw : s.wl = some w) (h
   rw [(envWl_frame w).2.2.1, lG1_envWl_paused, lG1_envWl_owner, lG1_ta_succeeded, hsucc, hd1.1.1, hd1.1.2, hd1.2, hd2]
   simp
 
-/-- the round from class 30, explicitly -/
-theorem lG1_round30 (s : CS) (h : liveInv s = true) (hc : cls s = 30) :
-    ∃ w, s.wl = some w ∧ mu s = 1 ∧
-      round s = some (lG1_next s { csObserve s.ro (roWl w) with phase := .healthy } w) := by
-  obtain ⟨hf, hcfg, _, hb⟩ := (liveInv_iff s).1 h
-  obtain ⟨w, hw, hph, hr⟩ := lG1_cls_30 s hc
-  have hb : atBoundary s = true := by
-    rcases hb with hb | hb
-    · omega
-    · exact hb
-  obtain ⟨hgone, hg, w', hw', hwok, hmono, hbro, hpi⟩ := fwd_parts s hf
-  rw [hw] at hw'; cases hw'
-  rw [phaseInv_completed s w hph hr] at hpi
-  simp only [Bool.and_eq_true, Option.isNone_iff_eq_none, Bool.not_eq_true'] at hpi
-  obtain ⟨hbr, hanno⟩ := hpi
-  have hcons := lG1_cons w (lG1_boundary s w hw hb).1
-  have hrec := reconcile_completed (roWorld s) (roWl w) hg (world_wl s w hw) hcons hph hr
-  have hro : stepRo s = some { s with gone := false, ro := { csObserve s.ro (roWl w) with phase := .healthy } } :=
-    lG1_stepRo_status s _ hgone hrec rfl rfl rfl rfl rfl
-  exact ⟨w, hw, lG1_mu_completed s w hw hph hr, (lG1_round_of s w _ hf hw hbr hro).1⟩
-
 theorem done_cls_30 (s : CS) (h : liveInv s = true) (hd : doneInv s = true) (hc : cls s = 30) :
     ∀ s', round s = some s' → doneInv s' = true := by
-  obtain ⟨w, hw, hmu, hround⟩ := lG1_round30 s h hc
+  obtain ⟨w, hw, hmu, hround, _, _⟩ := lG1_round30 s h hc
   intro s' hs'
   rw [hround] at hs'; cases hs'
   exact lG1_next_done s _ w hw hd (by omega) (lG1_obs_succeeded s.ro (roWl w))
 
 theorem done_cls_40 (s : CS) (h : liveInv s = true) (hd : doneInv s = true) (hc : cls s = 40) :
     ∀ s', round s = some s' → doneInv s' = true := by
-  obtain ⟨w, hw, _, hround, _, _, _, hmu, _⟩ := lG1_round40 s h hc
   intro s' hs'
-  rw [hround] at hs'; cases hs'
-  exact lG1_next_done s _ w hw hd (by omega) (lG1_obs_succeeded s.ro (roWl w))
-
-/-! ### the witnesses against `round_cls_30` / `round_cls_40` as stated -/
-
-def lG1_cRo : Rollout :=
-  { style := .canary, steps := [⟨.pct 100, none, .short⟩], paused := false, disabled := false,
-    deleting := false, hasFinalizer := true, hasTraffic := false, disableGen := false, rollbackInBatch := false, grace := 3,
-    phase := .progressing, reason := .completed, condAge := .elapsed, succeeded := some true, term := .none, sub := none,
-    realPartition := true }
-
-def lG1_cWl : CWl :=
-  { replicas := 10, generation := 5, observedGeneration := 5, statusReplicas := 10, updated := 10, updatedReady := 10,
-    updateRevision := "v2", currentRevision := "v2", partition := none, paused := false, owner := .none, inProgressAnno := false }
-
-/-- class 30 without a sub-status -/
-def lG1_c30 : CS :=
-  { gone := false, ro := lG1_cRo, wl := some lG1_cWl, br := none,
-    net := { stableExists := true, stableSel := none, canarySvc := none, stableIngress := true, canaryIng := none }, mem := Mem.empty }
-
-def lG1_cSub : Sub :=
-  { curIdx := 1, nextIdx := -1, state := .completed, finStep := .empty, canaryRev := "v2", stableRev := "v1", podHash := "",
-    hash := .same, observedRolloutID := "old", observedGen := 0, lastUpdate := .elapsed }
-
-/-- class 40 with a stale observed rollout-id / generation in the sub-status -/
-def lG1_c40 : CS := { lG1_c30 with ro := { lG1_cRo with phase := .healthy, sub := some lG1_cSub } }
-
-/-- `round_cls_30` is false as stated: the successor is in none of the listed classes -/
-example : liveInv lG1_c30 = true ∧ cls lG1_c30 = 30 ∧
-    (round lG1_c30).map (fun s => (liveInv s, cls s, mu s)) = some (false, 0, 0) := by decide +kernel
-
-/-- `round_cls_40` is false as stated: the first round still refreshes the sub-status; the second changes nothing -/
-example : liveInv lG1_c40 = true ∧ cls lG1_c40 = 40 ∧ round lG1_c40 ≠ some lG1_c40 ∧
-    (round lG1_c40).map (fun s => (liveInv s, cls s, mu s, decide (round s = some s))) = some (true, 40, 0, true) := by
-  decide +kernel
+  rw [(round_cls_40 s h hc).1] at hs'; cases hs'
+  exact hd
 
 end RV.Lemmas.ClosedLoop
